@@ -374,4 +374,7 @@ def run(model, tier):
                   (lambda part: c12_ed.ned_fluxes(model, part, ('LM_nED',)), ()),
                   (lambda part: c12_ed.ned_fluxes(model, part, ('FLD',), modname='exactpack.solvers.radshocks.fnctn_FLD', var='E',
                                                   eq=('Er0', 'Er1'), tag='fnctn_FLD'), ())], res)
+    # R12.6: the inner problem object is set up with the user's parameters
+    from . import c12_delegation
+    c12_delegation.wrappers(model, res)
     return res
